@@ -5,7 +5,10 @@ use white_whale_std::pool_network::asset::{Asset, AssetInfo};
 use crate::state::{store_fee, ALL_TIME_BURNED_FEES};
 use crate::{
     error::VaultError,
-    state::{ALL_TIME_COLLECTED_PROTOCOL_FEES, COLLECTED_PROTOCOL_FEES, CONFIG, LOAN_COUNTER},
+    state::{
+        ALL_TIME_COLLECTED_PROTOCOL_FEES, COLLECTED_PROTOCOL_FEES, CONFIG, LOAN_COUNTER,
+        NESTED_LOAN_FEES,
+    },
 };
 
 pub fn after_trade(
@@ -45,10 +48,18 @@ pub fn after_trade(
     )?;
     let burn_fee = Uint128::try_from(config.fees.burn_fee.compute(Uint256::from(loan_amount)))?;
 
+    // fees paid by the loans taken and completed inside this one are still sitting in the vault;
+    // they belong to those loans and cannot repay this one
+    let mut nested_loan_fees = NESTED_LOAN_FEES
+        .may_load(deps.storage)?
+        .unwrap_or_default();
+    let nested_fees = nested_loan_fees.pop().unwrap_or_default();
+
     let required_amount = old_balance
         .checked_add(protocol_fee)?
         .checked_add(flash_loan_fee)?
-        .checked_add(burn_fee)?;
+        .checked_add(burn_fee)?
+        .checked_add(nested_fees)?;
 
     if required_amount > new_balance {
         return Err(VaultError::NegativeProfit {
@@ -62,7 +73,17 @@ pub fn after_trade(
         .checked_sub(old_balance)?
         .checked_sub(protocol_fee)?
         .checked_sub(flash_loan_fee)?
-        .checked_sub(burn_fee)?;
+        .checked_sub(burn_fee)?
+        .checked_sub(nested_fees)?;
+
+    // hand the fees that stay in the vault over to the enclosing loan, if there is one
+    if let Some(enclosing_loan_fees) = nested_loan_fees.last_mut() {
+        *enclosing_loan_fees = enclosing_loan_fees
+            .checked_add(protocol_fee)?
+            .checked_add(flash_loan_fee)?
+            .checked_add(nested_fees)?;
+    }
+    NESTED_LOAN_FEES.save(deps.storage, &nested_loan_fees)?;
 
     // store fees
     store_fee(deps.storage, COLLECTED_PROTOCOL_FEES, protocol_fee)?;
